@@ -158,6 +158,9 @@ def body_states(B, t, q, u):
             mx[k] = float(q[c.my_qDOF][0])
     if mx:
         st["maxwell"] = mx
+    pid = {k: float(q[c.my_qDOF][0]) for k, (ac, c) in enumerate(zip(B.scene.get("actuators", []), B.actuators)) if ac["type"] == "pid"}
+    if pid:
+        st["pid"] = pid
     # reference lengths that were defined from the initial configuration keep their meaning
     st["l_ref"] = {k: float(c.l_ref) for k, c in enumerate(B.laws) if getattr(c, "l_ref", None) is not None}
     return st
